@@ -682,7 +682,15 @@ class FldExporter(Exporter):
         if scope == FldExporter.ScopeOfValues.AllVariables:
             if len(engine.input_variables) == 0:
                 raise ValueError("expected input variables in engine, but got none")
-            resolution = -1 + max(1, int(pow(values, (1.0 / len(engine.input_variables)))))
+            # largest integer root such that root**inputs <= values
+            # (the floating-point root alone is off by one for perfect powers, eg, 64 ** (1 / 3))
+            inputs = len(engine.input_variables)
+            root = int(pow(values, (1.0 / inputs)))
+            while root**inputs > values:
+                root -= 1
+            while (root + 1) ** inputs <= values:
+                root += 1
+            resolution = -1 + max(1, root)
         else:
             resolution = values - 1
 
